@@ -91,7 +91,15 @@ def run(tier, replay=None):
         ck.add_tlc(r)
         seqs = json_prints(r, "masm")
         scs += seqs
-        ck.extra["unit_scenarios"] = len(scs) - len(seqs)
+        # memory / advice instructions as short write-then-read programs (GEN_MasmIO)
+        r = tlc_or_die("GEN_MasmIO.tla", cfg="GEN_MasmIO.cfg", cwd=os.path.join(SPEC, "gen"), workers=2, timeout=1800)
+        ck.add_tlc(r)
+        io = json_prints(r, "masm")
+        if len(io) < 100:
+            raise ToolError("GEN_MasmIO produced only %d scenarios" % len(io))
+        scs += io
+        ck.extra["io_scenarios"] = len(io)
+        ck.extra["unit_scenarios"] = len(scs) - len(seqs) - len(io)
         ck.extra["sequence_scenarios"] = len(seqs)
     # --- render ------------------------------------------------------------------------------------
     inp = os.path.join(wd, "masm_scenarios.ndjson")
